@@ -56,7 +56,7 @@ func (sc *scenario) node(i int) *node.Node { return sc.w.Nodes[i] }
 var favTx = map[string][]string{
 	"value":  {"valid", "yield-swap", "fee-exact", "fee-low", "fee-plus1", "overflow", "many-outputs", "consolidate", "zero-output"},
 	"spend":  {"valid", "double-spend", "same-input-twice", "spend-pooled", "spend-last-block", "duplicate", "bad-index", "unknown-ref"},
-	"owner":  {"valid", "bad-sig", "zero-sig", "wrong-owner", "foreign-sig", "unknown-ref"},
+	"owner":  {"valid", "valid", "bad-sig", "zero-sig", "wrong-owner", "foreign-sig", "replay-sig", "replay-sig", "unknown-ref"},
 	"shape":  {"valid", "ts-old", "ts-last", "ts-next", "ts-future"},
 	"income": {"valid", "yield-new", "yield-new", "yield-twice", "yield-registered", "yield-swap", "yield-swap"},
 	"alias":  {"valid", "yield-new", "yield-new", "yield-registered"},
@@ -119,7 +119,7 @@ func (sc *scenario) value(u *ledger.Utxo, at int64) uint64 {
 }
 
 var txKinds = []string{"valid", "valid", "valid", "valid", "fee-exact", "fee-low", "fee-plus1", "double-spend", "duplicate", "bad-sig",
-	"zero-sig", "wrong-owner", "foreign-sig", "unknown-ref", "bad-index", "ts-old", "ts-last", "ts-next", "ts-future", "overflow",
+	"zero-sig", "wrong-owner", "foreign-sig", "replay-sig", "unknown-ref", "bad-index", "ts-old", "ts-last", "ts-next", "ts-future", "overflow",
 	"yield-new", "yield-twice", "yield-registered", "yield-swap", "same-input-twice", "spend-pooled", "spend-last-block", "zero-output", "many-outputs", "consolidate"}
 
 func (sc *scenario) makeTx(n *node.Node, kind string) (*ledger.Transaction, string) {
@@ -225,7 +225,7 @@ func (sc *scenario) makeTx(n *node.Node, kind string) (*ledger.Transaction, stri
 			return nil, ""
 		}
 		return pick(r, p), kind
-	case "bad-sig", "zero-sig", "foreign-sig", "wrong-owner":
+	case "bad-sig", "zero-sig", "foreign-sig", "wrong-owner", "replay-sig":
 		pickSome(1)
 		u := usable[0]
 		raw := &node.RawTx{Timestamp: ts, Outputs: outs(inV, S.MinFee, "")}
@@ -251,6 +251,30 @@ func (sc *scenario) makeTx(n *node.Node, kind string) (*ledger.Transaction, stri
 				return nil, ""
 			}
 			in.Signature = o.Sign(u.u.OutputIndex(), u.u.TransactionId())
+		case "replay-sig": // the owner's key with a signature the owner made over ANOTHER output reference, preferably
+			// one this node has already verified (published in its chain or pool)
+			var seen []string
+			for _, b := range n.AllBlocks() {
+				for _, t := range b.Transactions() {
+					for _, i := range t.Inputs() {
+						if i.Address() == u.owner.Address && (i.TransactionId() != u.u.TransactionId() || i.OutputIndex() != u.u.OutputIndex()) {
+							seen = append(seen, node.SigHexOf(i))
+						}
+					}
+				}
+			}
+			for _, t := range n.Pool.Transactions() {
+				for _, i := range t.Inputs() {
+					if i.Address() == u.owner.Address && (i.TransactionId() != u.u.TransactionId() || i.OutputIndex() != u.u.OutputIndex()) {
+						seen = append(seen, node.SigHexOf(i))
+					}
+				}
+			}
+			if len(seen) > 0 {
+				in.Signature = pick(r, seen)
+			} else {
+				in.Signature = u.owner.Sign(u.u.OutputIndex()+1, u.u.TransactionId())
+			}
 		case "wrong-owner": // key and valid signature of another wallet
 			o := other()
 			if o == u.owner {
@@ -871,8 +895,23 @@ var rejectionClasses = map[string]bool{"bad-prev-hash": true, "bad-block-ts": tr
 
 // catch-up rounds of follower f against server a; returns rounds used
 func (sc *scenario) catchUp(f, a *node.Node, now int64, maxRounds int) int {
+	return sc.catchUpN(f, a, now, maxRounds, 0)
+}
+
+// catchUpN: like catchUp with `distinct` honest neighbours under distinct targets, all holding a's chain
+// (distinct = 0: the historical shape, two senders under one target)
+func (sc *scenario) catchUpN(f, a *node.Node, now int64, maxRounds int, distinct int) int {
 	for k := 1; k <= maxRounds; k++ {
-		sc.w.Sync(f, now, []trace.Neighbour{trace.Honest(a), trace.Honest(a)})
+		nb := []trace.Neighbour{trace.Honest(a), trace.Honest(a)}
+		if distinct > 0 {
+			nb = nil
+			for j := 0; j < distinct; j++ {
+				h := trace.Honest(a)
+				h.Target = fmt.Sprintf("%s-peer%d", a.Name, j)
+				nb = append(nb, h)
+			}
+		}
+		sc.w.Sync(f, now, nb)
 		if sameChain(f, a) {
 			return k
 		}
@@ -1027,15 +1066,29 @@ func (sc *scenario) runCatchup(maxOps int) {
 	// every started follower (prefix holders) and one private newcomer catch up
 	for i := 1; i < len(w.Nodes) && len(w.Failures) == 0; i++ {
 		f := w.Nodes[i]
+		distinct := 0
 		if len(f.AllBlocks()) == 0 {
 			if i > spare {
 				break
 			}
-			w.Tick(f, T0) // private chain of length 1 (shorter than C and than the page)
+			// private chain shorter than C and than the page: every admissible length, 1 to 3 honest neighbours
+			maxPriv := c - 1
+			if int(S.BlocksLimit)-1 < maxPriv {
+				maxPriv = int(S.BlocksLimit) - 1
+			}
+			priv := 1
+			if maxPriv > 1 {
+				priv = 1 + r.Intn(maxPriv)
+			}
+			for k := 0; k < priv; k++ {
+				w.Tick(f, T0+int64(k)*S.Interval)
+			}
+			distinct = 1 + r.Intn(3)
+			w.Hist[fmt.Sprintf("catchup:private=%d,neighbours=%d", priv, distinct)]++
 		}
 		bound := 1 + ceilDiv(c, int(S.BlocksLimit)-1)
 		start := len(f.AllBlocks())
-		rounds := sc.catchUp(f, a, sc.clock, bound)
+		rounds := sc.catchUpN(f, a, sc.clock, bound, distinct)
 		if rounds > bound {
 			sc.propFail(fmt.Sprintf("C08 not converged: follower starting at length %d, chain length %d, page %d, after %d rounds", start, c, S.BlocksLimit, bound), "sync")
 			return
@@ -1048,6 +1101,173 @@ func (sc *scenario) runCatchup(maxOps int) {
 		for h := 0; h <= c+2; h++ {
 			w.Read(f, uint64(h))
 		}
+	}
+}
+
+// profile "fork" (C06), structured half: two or three lineages that diverge at a chosen height (0 = different first
+// blocks) and grow to chosen lengths; the host is then offered, by 1 to 6 neighbours under distinct targets, whole
+// lineages, valid PREFIXES of them (shorter candidates), its own chain, and a few faults — so that the host is longer /
+// equal / shorter than the candidates, in the majority / in the minority / tied.  The oracle is the model's selection.
+func (sc *scenario) runFork(maxOps int) {
+	r := sc.rng
+	w := sc.w
+	S := w.S
+	a, b, c := w.Nodes[0], w.Nodes[1], w.Nodes[2]
+	sc.clock = T0
+	w.Tick(a, sc.clock)
+	grow := func(n *node.Node) {
+		if r.Intn(3) == 0 && len(n.AllBlocks()) > 0 {
+			if tx, _ := sc.makeTx(n, pick(r, []string{"valid", "valid", "yield-new", "consolidate"})); tx != nil {
+				if w.Submit(n, tx).Info["submit"] == "admitted" {
+					sc.mark("admitted")
+				}
+			}
+		}
+		if v := w.Tick(n, sc.clock); v.Info["included"] != "0" && v.Info["included"] != "" {
+			sc.mark("block-with-tx")
+		}
+	}
+	common := pick(r, []int{0, 0, 1, 2, 3, 5})
+	for i := 0; i < common; i++ {
+		sc.clock += S.Interval
+		grow(a)
+	}
+	for _, f := range []*node.Node{b, c} {
+		w.Tick(f, T0) // private first block (another validator): diverges at height 0 unless it catches up now
+		if common > 0 {
+			sc.catchUp(f, a, sc.clock, 2+ceilDiv(len(a.AllBlocks()), 2))
+		}
+	}
+	la, lb, lc := r.Intn(6), r.Intn(6), r.Intn(4)
+	for i := 0; i < 6; i++ {
+		sc.clock += S.Interval
+		if i < la {
+			grow(a)
+		}
+		if i < lb {
+			grow(b)
+		}
+		if i < lc {
+			grow(c)
+		}
+	}
+	nodes := []*node.Node{a, b, c}
+	rounds := 2 + r.Intn(4)
+	for round := 0; round < rounds && len(w.Failures) == 0; round++ {
+		host := pick(r, nodes)
+		k := 1 + r.Intn(6)
+		var nb []trace.Neighbour
+		for j := 0; j < k; j++ {
+			target := fmt.Sprintf("peer%d", j)
+			src := pick(r, nodes)
+			chain := src.AllBlocks()
+			roll := r.Intn(100)
+			switch {
+			case roll < 40 && len(chain) >= 2: // a valid prefix (possibly shorter than the host's chain)
+				m := 2 + r.Intn(len(chain)-1)
+				nb = append(nb, trace.Serving(target, "prefix", chain[:m], S.BlocksLimit))
+			case roll < 85 && len(chain) >= 1:
+				nb = append(nb, trace.Serving(target, "lineage", chain, S.BlocksLimit))
+			case roll < 92:
+				nb = append(nb, trace.Neighbour{Target: target, Kind: "error", Answer: func(uint64, int) ([]byte, error) { return nil, fmt.Errorf("down") }})
+			default:
+				nb = append(nb, trace.Neighbour{Target: target, Kind: "garbage", Answer: func(uint64, int) ([]byte, error) { return []byte("[null]"), nil }})
+			}
+		}
+		// often: make several neighbours agree on ONE other lineage (majority against the host)
+		if r.Intn(2) == 0 {
+			o := pick(r, nodes)
+			if o != host && len(o.AllBlocks()) >= 2 {
+				ch := o.AllBlocks()
+				m := 2 + r.Intn(len(ch)-1)
+				for j := range nb {
+					if r.Intn(4) > 0 {
+						nb[j] = trace.Serving(nb[j].Target, "bloc", ch[:m], S.BlocksLimit)
+					}
+				}
+			}
+		}
+		v, _ := w.Sync(host, sc.clock, nb)
+		if m := v.Info["sync"]; m == "extension" || m == "resync" || m == "tipswap" {
+			sc.mark("adopted")
+		}
+		if r.Intn(2) == 0 {
+			sc.clock += S.Interval
+			grow(pick(r, nodes))
+		}
+	}
+}
+
+// profile "alias" (C12), structured part: three nodes share a LONG prefix (lengths around Go's allocation size
+// classes, where a cloned slice gets spare capacity), each produces its own tip, two go one block further; the third
+// is then offered, in random order, the valid longer chain and a competitor that is rejected after its first block
+// (and the reverse roles), so that candidate verifications that share a prefix slice would overwrite each other.
+func (sc *scenario) runLongPrefix() {
+	r := sc.rng
+	w := sc.w
+	S := w.S
+	if len(w.Nodes) < 3 {
+		sc.run(20)
+		return
+	}
+	a, b, c := w.Nodes[0], w.Nodes[1], w.Nodes[2]
+	L := pick(r, []int{33, 33, 34, 37, 38, 41, 65, 66})
+	sc.clock = T0
+	w.Tick(a, sc.clock)
+	for len(a.AllBlocks()) < L && len(w.Failures) == 0 {
+		if r.Intn(6) == 0 {
+			if tx, _ := sc.makeTx(a, pick(r, []string{"valid", "yield-new"})); tx != nil {
+				if w.Submit(a, tx).Info["submit"] == "admitted" {
+					sc.mark("admitted")
+				}
+			}
+		}
+		sc.clock += S.Interval
+		if v := w.Tick(a, sc.clock); v.Info["included"] != "0" && v.Info["included"] != "" {
+			sc.mark("block-with-tx")
+		}
+	}
+	for _, f := range []*node.Node{b, c} {
+		w.Tick(f, T0)
+		if sc.catchUp(f, a, sc.clock, 3+ceilDiv(L, int(S.BlocksLimit)-1)) > 3+ceilDiv(L, int(S.BlocksLimit)-1) {
+			return
+		}
+	}
+	sc.mark("adopted")
+	sc.clock += S.Interval
+	for _, n := range []*node.Node{a, b, c} {
+		w.Tick(n, sc.clock) // three competing tips on the shared prefix
+	}
+	sc.clock += S.Interval
+	w.Tick(a, sc.clock)
+	w.Tick(b, sc.clock)
+	for round := 0; round < 2 && len(w.Failures) == 0; round++ {
+		good, bad := a, b
+		if r.Intn(2) == 0 {
+			good, bad = b, a
+		}
+		bc := bad.AllBlocks()
+		broken := sc.mutate(c, bc, len(bc)-1, pick(r, []string{"no-reward", "two-rewards", "bad-ts", "reward-plus1"}), 0)
+		if broken == nil {
+			return
+		}
+		g := trace.Honest(good)
+		g.Target = "peerGood"
+		nb := []trace.Neighbour{g, trace.Serving("peerBad", "break:second-block", broken, S.BlocksLimit)}
+		if r.Intn(3) == 0 {
+			nb = append(nb, trace.Serving("peerBad2", "break:second-block", broken, S.BlocksLimit))
+		}
+		r.Shuffle(len(nb), func(i, j int) { nb[i], nb[j] = nb[j], nb[i] })
+		w.Sync(c, sc.clock, nb)
+		for h := len(c.AllBlocks()) - 3; h <= len(c.AllBlocks()); h++ {
+			if h >= 0 {
+				w.Read(c, uint64(h))
+			}
+		}
+		// next round: everyone moves on, c competes again
+		sc.clock += S.Interval
+		w.Tick(a, sc.clock)
+		w.Tick(b, sc.clock)
 	}
 }
 
@@ -1164,7 +1384,7 @@ func main() {
 			nn = 2 + 10
 		case "faults":
 			nn = 1
-		case "fork":
+		case "fork", "alias":
 			nn = 3
 		}
 		var validators []int
@@ -1185,6 +1405,18 @@ func main() {
 			sc.runCatchup(ops)
 		case "faults":
 			sc.runFaults(ops)
+		case "alias":
+			if rng.Intn(6) == 0 {
+				sc.runLongPrefix()
+			} else {
+				sc.run(ops)
+			}
+		case "fork":
+			if rng.Intn(2) == 0 {
+				sc.runFork(ops)
+			} else {
+				sc.run(ops)
+			}
 		default:
 			sc.run(ops)
 		}
